@@ -5,7 +5,7 @@ CONSTANTS
   Combos = TRUE
   Reps = FALSE
   KindsOn = {}
-  MaxCalls = 3
+  MaxCalls = 5
   Abstract = TRUE
 CONSTRAINT Reached
 POSTCONDITION Accepted
